@@ -47,6 +47,11 @@
      reference evaluation of a workflow computes;
    - C02_network_one_answer: over the whole network a packet has at most one recorded answer, and has one exactly
      when some node has answered it;
+   - C02_network_source_order: when all outside requests enter at node 0 (the source's port), the answers delivered
+     outside are, oldest first, exactly the requests node 0 has answered - a prefix of the requests injected, in
+     injection order, without repetition (the source gets its answers in request order, each once);
+   - C02_network_error_propagates (packets, packet.Join, dropped-packet error): an error among the answers to the
+     packets derived from a request makes that request's answer an error - so an error anywhere below reaches the source;
    - C02_network_no_deadlock: while anything is pending some node can finish an action or answer (acyclicity is
      used here); C02_network_quiescent: a network that cannot move has answered everything it received, exactly
      once and in order.
@@ -61,7 +66,7 @@
    source received. *)
 From Coq Require Import List Arith NArith ZArith Bool.
 From Uf Require Import Packet.Writer Node.Tracer Node.TracerProofs Node.Spec Node.Refine Node.Loops.
-From Uf Require Node.Network.
+From Uf Require Node.Network Node.NetworkOrder Node.NetworkPkt Packet.WriterProofs.
 Import ListNotations.
 
 Theorem C02_exactly_once_in_order : forall ops r,
@@ -196,6 +201,23 @@ Theorem C02_network_one_answer : forall (ans : Type) (join : list ans -> ans) (d
 Proof. exact Network.one_answer_per_packet. Qed.
 Print Assumptions C02_network_one_answer.
 
+Theorem C02_network_source_order : forall (ans : Type) (join : list ans -> ans) (drop : ans) (N : nat) ls,
+  Forall (NetworkOrder.src_label ans) ls ->
+  let st := Network.run ans join drop N ls in
+  rev (map fst (Network.n_out ans st)) = Network.n_done ans st 0
+  /\ Network.n_arr ans st 0 = Network.n_done ans st 0 ++ map (Network.q_id ans) (Network.n_q ans st 0)
+  /\ NoDup (Network.n_arr ans st 0).
+Proof. exact NetworkOrder.source_order. Qed.
+Print Assumptions C02_network_source_order.
+
+Theorem C02_network_error_propagates : forall N ls,
+  let st := Network.run pkt join dropped N ls in
+  forall id a own kids k x,
+    In (id, a) (Network.n_ans pkt st) -> In (id, own, kids) (Network.n_der pkt st) -> In k kids -> In (k, x) (Network.n_ans pkt st) ->
+    WriterProofs.is_err x = true -> WriterProofs.is_err a = true.
+Proof. exact NetworkPkt.error_propagates. Qed.
+Print Assumptions C02_network_error_propagates.
+
 (* non-vacuity: a diamond 0 -> {1, 2} -> 3 with two requests pipelined; answers are sums.  The second request
    overtakes nowhere: node 0 answers request 0 first although request 1's branch finished earlier. *)
 Definition c02_net_run : list (Network.lab nat) :=
@@ -212,3 +234,12 @@ Example C02_ex_network :
   Network.n_out nat st = [(1, 11); (0, 15)] /\ Network.n_done nat st 0 = [0; 1] /\ Network.n_done nat st 1 = [2; 4] /\ Network.n_done nat st 3 = [5; 6]
   /\ Network.n_q nat st 0 = [] /\ Network.n_q nat st 1 = [] /\ Network.n_q nat st 2 = [] /\ Network.n_q nat st 3 = [].
 Proof. vm_compute. repeat split; reflexivity. Qed.
+
+(* non-vacuity for the last two: all requests enter at node 0; one branch of a fan-out fails *)
+Example C02_ex_network_error :
+  let ls := [Network.LIn pkt 0; Network.LProc pkt 0 PNone [1; 2]; Network.LProc pkt 1 (Pk (PErr [5%Z])) [];
+             Network.LProc pkt 2 (Pk (PAtom 1%Z)) []; Network.LAns pkt 1; Network.LAns pkt 2; Network.LAns pkt 0] in
+  Forall (NetworkOrder.src_label pkt) ls /\
+  Network.n_out pkt (Network.run pkt join dropped 3 ls) = [(0, Pk (PErr [5%Z]))] /\
+  Network.n_done pkt (Network.run pkt join dropped 3 ls) 0 = [0].
+Proof. split; [repeat constructor|]. vm_compute. split; reflexivity. Qed.
